@@ -125,6 +125,7 @@ theorem c05_noNone_deser (XO : XOracles) (opts : DeserOpts) (x : XDecl) (h : xNo
     exact ⟨.valueErr, by simp [deserX, PyVal.isNone, dEnumName, dValidated, vEnumVal, h], rfl⟩
   | fmtStr kind strict => exact ⟨.typeErr, by simp [deserX, PyVal.isNone, dFmtStr], rfl⟩
   | opt x => simp [xNoNone] at h
+  | anyOf xs => simp [xNoNone] at h
   | seqOf k x => exact ⟨.valueErr, by simp [deserX, PyVal.isNone, dSeq, docSeq], rfl⟩
   | setOf x => exact ⟨.valueErr, by simp [deserX, PyVal.isNone, dSeq, docSeq], rfl⟩
   | mapStr x => exact ⟨.typeErr, by simp [deserX, PyVal.isNone, dMap], rfl⟩
@@ -152,6 +153,7 @@ theorem c05_noNone_validate (XO : XOracles) (x : XDecl) (h : xNoNone x = true) :
     exact ⟨.valueErr, by simp [validateX, vEnumVal, h], rfl⟩
   | fmtStr kind strict => exact ⟨.typeErr, by simp [validateX, vFmtStr], rfl⟩
   | opt x => simp [xNoNone] at h
+  | anyOf xs => simp [xNoNone] at h
   | seqOf k x => exact ⟨.typeErr, by cases k <;> simp [validateX, vSeq, seqElems], rfl⟩
   | setOf x => exact ⟨.typeErr, by simp [validateX, vSet], rfl⟩
   | mapStr x => exact ⟨.typeErr, by simp [validateX, vMap], rfl⟩
@@ -369,6 +371,7 @@ theorem xround_trip (XO : XOracles) (opts : DeserOpts) : ∀ (x : XDecl) (v : Py
     · have hn' : v.isNone = false := by simpa using hn
       simp only [hn', Bool.false_eq_true, if_false] at h
       exact rtx_opt_some XO opts x v hn' (xround_trip XO opts x v h)
+  | .anyOf _, _, h => by simp [xFrag] at h
   | .seqOf k x, v, h => by
     simp only [xFrag] at h
     cases hs : seqElems k v with
